@@ -145,6 +145,14 @@ def render_go(pkg, modname):
     """ctorgen.render_go, with the structs named in pkg["groups"] rendered inside one `type ( ... )` declaration each;
     the group's doc comment is the GenDecl doc of every struct in it (sd["doc"]), the structs carry no own comment"""
     files = ctorgen.render_go(pkg, modname)
+    if pkg.get("select") == "star":
+        # -type=* names its all-in-one file after the source file that carries the //go:generate line of the command
+        (fname, text), = files.items()
+        head = "package %s\n" % pkg["name"]
+        assert text.startswith(head), text[:40]
+        files = {fname: head + "\n//go:generate shoot " + " ".join(select_args(pkg, fname, pkg.get("flags_for_generate_line",
+                                                                                                   ["new", "-getset"]))) +
+                 "\n" + text[len(head):]}
     groups = pkg.get("groups") or []
     if not groups:
         return files
@@ -167,6 +175,21 @@ def render_go(pkg, modname):
     import re as _re
     text = _re.sub(r"\n{3,}", "\n\n", text)
     return {fname: text}
+
+
+def select_args(pkg, fname, head):
+    """the command line: an explicit -type list, or the tool picks the types itself (-file=<source> / -type=*)"""
+    sel = pkg.get("select") or "list"
+    if sel == "file":
+        return list(head) + ["-file=" + fname]
+    if sel == "star":
+        return list(head) + ["-type=*"]
+    return list(head) + ["-type=" + ",".join(pkg["order"])]
+
+
+def source_name(pkg, modname):
+    (fname, _), = ctorgen.render_go(pkg, modname).items()
+    return fname
 
 
 def add_groups(rng, pkg, p=0.12):
@@ -228,6 +251,7 @@ def coq_row(r):
 def spec_json(pkg):
     """the part of a package spec that goes into replay files"""
     return {"name": pkg["name"], "extra_decls": pkg["extra_decls"], "groups": pkg.get("groups") or [],
+            "select": pkg.get("select") or "list",
             "structs": [{k: x for k, x in s.items() if not k.startswith("_")} for s in pkg["structs"]]}
 
 
